@@ -392,16 +392,38 @@ func (c *ctx) faults(p pre, o Op, o2 *Op) {
 			continue
 		}
 		c.followUp(p, []Op{o}, d, m, dir, rdir, faultDesc, replay)
+		// the same fault once more, followed by later calls in another order: the first later call goes to a
+		// secret the failed call did not touch (what a failed call leaves behind in memory for its own
+		// secret then reaches the file through somebody else's save)
+		m3 := build(dir, p)
+		d3, err := db.Open(filepath.Join(dir, "db"), kek, hx.Discard())
+		if err != nil {
+			panic(err)
+		}
+		r3 := fsx.NewRecorder(dir)
+		r3.Baseline()
+		r3.FaultAt, r3.FaultShort = pt.at, pt.short
+		vos.SetHook(r3)
+		_, e3 := apply(d3, o)
+		vos.SetHook(nil)
+		if r3.Fired && e3 != nil {
+			c.sec.Extra["single_faults_other_secret_first"]++
+			c.followUpOrder(p, []Op{o}, d3, m3, dir, rdir, faultDesc, replay, []Op{{Kind: "put", Name: "fresh", Value: "f"}, {Kind: "put", Name: "a", Value: "after-fault"}, {Kind: "put", Name: "a", Value: ""}})
+		}
 	}
 }
 
 // followUp: after failed calls, state is pre; later fault-free calls succeed and match the model, also after a restart.
 func (c *ctx) followUp(p pre, ops []Op, d *db.DB, m *model.KV, dir, rdir, desc string, replay any) {
+	c.followUpOrder(p, ops, d, m, dir, rdir, desc, replay, []Op{{Kind: "put", Name: "a", Value: "after-fault"}, {Kind: "put", Name: "a", Value: ""}, {Kind: "put", Name: "fresh", Value: "f"}})
+}
+
+func (c *ctx) followUpOrder(p pre, ops []Op, d *db.DB, m *model.KV, dir, rdir, desc string, replay any, later []Op) {
 	if k := hx.DumpKey(d); k != m.Key() {
 		c.fail("served-state-after-fault", p, ops, fmt.Sprintf("%s: running database holds %s, pre-call state %s", desc, k, m.Key()), replay)
 		return
 	}
-	for _, f := range []Op{{Kind: "put", Name: "a", Value: "after-fault"}, {Kind: "put", Name: "a", Value: ""}, {Kind: "put", Name: "fresh", Value: "f"}} {
+	for _, f := range later {
 		want, _ := m.Put(f.Name, f.Value)
 		got, err := apply(d, f)
 		if err != nil || got != want {
@@ -534,7 +556,7 @@ func TestCheck(t *testing.T) {
 		}
 	}
 	fault := rep.Add(&report.Section{Name: "injected-faults", Engine: "fsx", Exhaustive: true, Extra: map[string]int64{},
-		Rule: "for each operation: an injected error at every mutating file-system call (writes also after a partial write), then fault pairs across two consecutive operations; after each: error reported, served state, write generation and file equal the pre-call state, later calls and a restart match the model; non-trivial = runs in which the fault fired and the call failed"})
+		Rule: "for each operation: an injected error at every mutating file-system call (writes also after a partial write), then fault pairs across two consecutive operations; after each: error reported, served state, write generation and file equal the pre-call state, later calls (in two orders: the failed call's own secret first, another secret first) and a restart after each match the model; non-trivial = runs in which the fault fired and the call failed"})
 	c = &ctx{rep: rep, sec: fault, base: base}
 	c.faults(pre{name: "no-file"}, Op{Kind: "create"}, nil)
 	for _, p := range pres {
